@@ -61,12 +61,27 @@ def generate(rng, tier):
             g["many-stops"].append("DEC " + s)
             for cut in range(len(s) // 2 - 14, len(s) // 2):
                 g["many-stops"].append("DEC " + s[:2 * cut])
+    # arcs decoded into a Renderer whose target is larger than 1024 pixels (at most four curve segments per operation)
+    g["arcs-large-target"] = []
+    for _ in range(120 if tier == "quick" else 3000):
+        c1 = lambda lo, hi: "%02x" % (2 * (64 + rng.range(lo, hi)))
+        s = G.MAGIC + "00" + "c0" + c1(-30, 30) + c1(-30, 30)
+        for _ in range(rng.range(1, 3)):
+            s += rng.choice(["c0", "d0"]) + c1(1, 40) + c1(1, 40) + "%02x" % (2 * rng.below(120)) + "%02x" % (2 * rng.below(4)) + c1(-30, 30) + c1(-30, 30)
+        g["arcs-large-target"].append("DEC " + s + "e1")
+    g["pixels-nonfinite"] = []
     out = {}
+    out["pixels-nonfinite"] = ["DPIX 16 16 " + G.MAGIC + "00" + "c08080" + "00" + co + "90" + "e1" for co in ("0300807f", "030080ff", "0300c07f", "03ffff7f")]
+    del g["pixels-nonfinite"]
     for k, v in g.items():
         out[k] = v
         out[k + "-viewbox"] = ["DVB " + c.split(" ", 1)[1] for c in v[::4]]
         if k == "many-stops":
             out[k + "-into-renderer"] = ["DREN 0 0 16 16 " + c.split(" ", 1)[1] for c in v]
+            # ... and into a Renderer backed by the bundled raster/vec rasteriser (pixels are drawn, Gradient.At runs)
+            out[k + "-pixels"] = ["DPIX 16 16 " + c.split(" ", 1)[1] for c in v]
+        if k == "arcs-large-target":
+            out[k + "-into-renderer"] = ["DREN 0 0 %d %d " % (rng.choice([1024, 1025, 2048, 4096]), rng.choice([600, 1025, 3000])) + c.split(" ", 1)[1] for c in v]
         if k in ("truncations", "corruptions", "random-after-magic"):
             out[k + "-into-renderer"] = ["DREN 0 0 %d %d " % (1 + i % 40, 1 + i % 33) + c.split(" ", 1)[1] for i, c in enumerate(v[2::8])]
             out[k + "-into-encoder"] = ["TR 1 %d " % (i % 2) + c.split(" ", 1)[1] for i, c in enumerate(v[3::8])]
